@@ -111,10 +111,6 @@ theorem claimedBy_of_ids {own : String} {a b : Compute.Fields} (h : a.map (·.1)
   obtain ⟨y, hy, hxy⟩ := List.mem_map.mp this
   rw [← hxy]; exact hb y hy
 
-theorem claimedBy_pairs {own : String} {fs : List Field} (h : AllClaimed own fs) : ClaimedBy own (pairs fs) := by
-  intro x hx
-  obtain ⟨f, hf, rfl⟩ := List.mem_map.mp hx
-  exact h f hf
 
 theorem fv_bits12 (l : List Field) (h : l.length = 12) :
     (fv l 0).bits ++ ((fv l 1).bits ++ ((fv l 2).bits ++ ((fv l 3).bits ++ ((fv l 4).bits ++ ((fv l 5).bits ++ ((fv l 6).bits ++
